@@ -262,3 +262,35 @@ Definition str_eqb (a b : str) : bool :=
 (* canonical dump of a token list for comparison with the Python re-implementation used by the oracle *)
 Definition tok_code (t : tok) : Z * str :=
   match t with Text s => (0, s) | Tag s => (1, s) | Open s => (2, s) end.
+
+(* ---------------------------------------------------------------- nesting of the tags *)
+(* Start and end tags must match like brackets; <?...?> and <!...> declarations and <x/> are skipped.
+   Defined on the skeleton, so it cannot depend on character data. *)
+Fixpoint tag_name (s : str) : str :=
+  match s with
+  | [] => []
+  | c :: r => if is_ws c || (c =? 47) then [] else c :: tag_name r
+  end.
+Definition is_decl (s : str) : bool := match s with c :: _ => (c =? 63) || (c =? 33) | [] => false end.
+Definition is_close (s : str) : bool := match s with c :: _ => c =? 47 | [] => false end.
+Definition is_selfclose (s : str) : bool := match rev s with c :: _ => c =? 47 | [] => false end.
+
+Fixpoint balanced_sk (stack : list str) (l : list (option (bool * str))) : bool :=
+  match l with
+  | [] => match stack with [] => true | _ => false end
+  | None :: r => balanced_sk stack r
+  | Some (false, _) :: _ => false
+  | Some (true, s) :: r =>
+      if is_decl s then balanced_sk stack r
+      else if is_close s then
+        match stack with
+        | top :: st => str_eqb top (tag_name (tl s)) && balanced_sk st r
+        | [] => false
+        end
+      else if is_selfclose s then balanced_sk stack r
+      else balanced_sk (tag_name s :: stack) r
+  end.
+Definition well_nested (toks : list tok) : bool := balanced_sk [] (skeleton toks).
+Definition templates_nested (ts : list (list piece)) (codes locs : list str) : bool :=
+  forallb (fun t => forallb (fun c => forallb (fun l => well_nested (tokenize (exception_doc t [] c l)))
+                                              (opt_strs locs)) (opt_strs codes)) ts.
